@@ -73,6 +73,38 @@ theorem setMode_subset (c : Cfg) : ∀ (f : Nat) (call : Call) (w : World),
     | updateKeys kvs => rcases kvs with _ | ⟨⟨k, v⟩, rest⟩ <;> run_cases hrun with grind
     | trigger ps => run_cases hrun with grind
 
+/-! ### L1c: the number of parameter values never changes -/
+
+theorem foldl_set_length (tps : List Nat) (vs : List Int) :
+    (tps.foldl (fun vs tp => vs.set tp 0) vs).length = vs.length := by
+  induction tps generalizing vs with
+  | nil => rfl
+  | cons t rest ih => simp [ih]
+
+theorem vals_length (c : Cfg) : ∀ (f : Nat) (call : Call) (w : World),
+    (run c f call w).1 ≠ .oof → (run c f call w).2.1.vals.length = w.vals.length := by
+  intro f
+  induction f with
+  | zero => intro call w h; simp [run] at h
+  | succ f ih =>
+    intro call w
+    generalize hrun : run c (f+1) call w = out
+    intro h
+    cases call with
+    | stmts l => cases l <;> run_cases hrun with grind
+    | stmt s => cases s <;> run_cases hrun with grind [Res.andThen]
+    | setAttr p v => run_cases hrun with grind [Res.andThen, List.length_set]
+    | setPlain p v => run_cases hrun with grind [Res.andThen, List.length_set]
+    | setSlot p k v => run_cases hrun with grind [Res.andThen]
+    | dispatch ws ev => cases ws <;> run_cases hrun with grind
+    | callWatcher wt ev => run_cases hrun with grind
+    | exec wt evs fl => run_cases hrun with grind
+    | flush => run_cases hrun with grind
+    | flushRound ws d => cases ws <;> run_cases hrun with grind
+    | update kvs => run_cases hrun with grind [Res.andThen, foldl_set_length]
+    | updateKeys kvs => rcases kvs with _ | ⟨⟨k, v⟩, rest⟩ <;> run_cases hrun with grind
+    | trigger ps => run_cases hrun with grind
+
 /-! ### L2: a watcher is queued only together with an event; queues are empty again after every
 statement-level call made with the batching flag off -/
 
@@ -801,5 +833,92 @@ theorem updateKeys_in_batch_getVal (c : Cfg) (q : Nat) (hqe : c.isEvent q = fals
           rw [ih f w1 hb1 (by
             intro kv hkv e
             rw [hsame kv (List.mem_cons_of_mem _ hkv) e, hq1]) h, hq1]
+
+theorem getVal_set_same (w : World) (k : Nat) (v : Int) (hk : k < w.vals.length) :
+    (w.vals.set k v).getD k 0 = v := by
+  simp [List.getD, List.getElem?_set_self hk]
+
+/-- an assignment of a valid value made while the flag is set succeeds and installs the value
+(an Event parameter may have reset itself) -/
+theorem setAttr_in_batch_sets (c : Cfg) (f : Nat) (w : World) (k : Nat) (v : Int) (hb : w.batch = true)
+    (hv : c.valid k v = true) (hk : k < w.vals.length) (h : (run c f (.setAttr k v) w).1 ≠ .oof) :
+    (run c f (.setAttr k v) w).1 = .ok ∧
+    (c.isEvent k = false → getVal (run c f (.setAttr k v) w).2.1 k = v) := by
+  cases f with
+  | zero => simp [run] at h
+  | succ f =>
+    simp only [run] at h ⊢
+    by_cases he : c.isEvent k
+    · simp only [he, if_true] at h ⊢
+      have hp := setPlain_in_batch c f w k v hb
+      generalize run c f (.setPlain k v) w = d at h hp ⊢
+      obtain ⟨r1, w1, o1⟩ := d
+      cases r1 with
+      | oof => simp at h
+      | ok =>
+        simp only
+        refine ⟨?_, fun hh => by simp at hh⟩
+        split <;> simp
+      | raised e =>
+        rcases hp (by simp) with h1 | h1
+        · simp at h1
+        · rw [hv] at h1; simp at h1
+    · simp only [he, Bool.false_eq_true, if_false] at h ⊢
+      rcases setPlain_in_batch c f w k v hb h with h1 | h1
+      · refine ⟨h1.1, fun _ => ?_⟩
+        unfold getVal
+        rw [h1.2.1]
+        exact getVal_set_same w k v hk
+      · rw [hv] at h1; simp at h1
+
+/-- applying valid, distinct keys while the batching flag is set succeeds and installs each value
+(Event parameters aside, which reset themselves) -/
+theorem updateKeys_in_batch_sets (c : Cfg) : ∀ (kvs : List (Nat × Int)) (f : Nat) (w : World),
+    w.batch = true → w.vals.length = c.nparams →
+    (∀ kv ∈ kvs, c.valid kv.1 kv.2 = true ∧ kv.1 < c.nparams) → (kvs.map (·.1)).Nodup →
+    (run c f (.updateKeys kvs) w).1 ≠ .oof →
+    (run c f (.updateKeys kvs) w).1 = .ok ∧
+    ∀ kv ∈ kvs, c.isEvent kv.1 = false → getVal (run c f (.updateKeys kvs) w).2.1 kv.1 = kv.2 := by
+  intro kvs
+  induction kvs with
+  | nil =>
+    intro f w _ _ _ _ h
+    cases f with
+    | zero => simp [run] at h
+    | succ f => simp [run]
+  | cons kv rest ih =>
+    intro f w hb hlen hval hnd h
+    obtain ⟨k, v⟩ := kv
+    simp only [List.map_cons, List.nodup_cons] at hnd
+    have hk := hval (k, v) (by simp)
+    cases f with
+    | zero => simp [run] at h
+    | succ f =>
+      simp only [run] at h ⊢
+      have hlt : ¬ k ≥ c.nparams := by have := hk.2; omega
+      simp only [hlt, if_false] at h ⊢
+      have hfl := flags c f (.setAttr k v) w
+      have hvl := vals_length c f (.setAttr k v) w
+      have hset := setAttr_in_batch_sets c f w k v hb hk.1 (by rw [hlen]; exact hk.2)
+      generalize run c f (.setAttr k v) w = d at h hfl hvl hset ⊢
+      obtain ⟨r1, w1, o1⟩ := d
+      simp only at h hfl hvl hset ⊢
+      have hr1 : r1 ≠ .oof := by intro e; subst e; simp at h
+      obtain ⟨hok1, hval1⟩ := hset hr1
+      subst hok1
+      simp only at h ⊢
+      have hb1 : w1.batch = true := by rw [(hfl (by simp)).1]; exact hb
+      have hlen1 : w1.vals.length = c.nparams := by rw [hvl (by simp)]; exact hlen
+      obtain ⟨hok2, hrest⟩ := ih f w1 hb1 hlen1 (fun kv hkv => hval kv (List.mem_cons_of_mem _ hkv)) hnd.2 h
+      refine ⟨hok2, ?_⟩
+      intro kv hkv hne
+      rcases List.mem_cons.1 hkv with e | e
+      · subst e
+        -- the later keys are different from k: they leave its value alone
+        have := updateKeys_in_batch_getVal c k hne rest f w1 hb1 (by
+          intro kv' hkv' e'
+          exact absurd (e' ▸ List.mem_map.2 ⟨kv', hkv', rfl⟩) hnd.1) h
+        rw [this]; exact hval1 hne
+      · exact hrest kv e hne
 
 end ParamVerif.Dispatch
